@@ -157,7 +157,7 @@ def trunc_expand(chunk):
 def text_strategy(tier):
     atoms = st.one_of(
         st.sampled_from(TOKENS + ["WEBVTT\n\n", "<SAMI>", "</TT>", "Scenarist_SCC V1.0\n", "\r",
-                                  "\x0b", "\x0c", "\x1c", "\x85", " ", " ", "{0}{0}25",
+                                  "\x0b", "\x0c", "\x1c", "\x85", " ", " ", "{0}{0}25", '<?xml version="1.0"?>\n', "<?xml",
                                   "00:00:01.000 --> 00:00:02.000", "１", "²", "٣"]),
         st.text(max_size=5),
         st.text(st.characters(min_codepoint=32, max_codepoint=126), max_size=8),
@@ -182,7 +182,27 @@ def text_strategy(tier):
         n = total // (2 * len(unit)) + 1
         return {"huge": {"head": draw(short), "unit": unit, "n1": n, "mid": draw(short), "n2": n,
                          "tail": draw(short)}}
-    return st.one_of(*([st.one_of(short, short, short, long_doc()).map(lambda s: {"s": s})] * 60 + [huge_doc()]))
+
+    @st.composite
+    def long_first_lines(draw):
+        # the deciding token of the first or second line lies thousands of characters in
+        # (a zero-padded counter, an indented timing line, a long frame number)
+        n = draw(st.sampled_from([4090, 4096, 4100, 5000, 70000]))
+        kind = draw(st.sampled_from(["srt-counter", "srt-indent", "mdvd-frame", "mdvd-end", "xml-decl"]))
+        tail = draw(short)
+        if kind == "srt-counter":
+            return "0" * n + "1\n00:00:01,000 --> 00:00:02,000\ntext\n" + tail
+        if kind == "srt-indent":
+            return "1\n" + " " * n + "00:00:01,000 --> 00:00:02,000\ntext\n" + tail
+        if kind == "mdvd-frame":
+            return "{" + "0" * n + "1}{25}text\n" + tail
+        if kind == "mdvd-end":
+            return "{1}{" + "0" * n + "25}text\n" + tail
+        # an XML declaration in front of anything
+        return '<?xml version="1.0" encoding="utf-8"?>\n' + tail + draw(st.sampled_from(["", "WEBVTT\n", "<sami>", "1\n-->"]))
+    return st.one_of(*([st.one_of(short, short, short, long_doc()).map(lambda s: {"s": s})] * 60
+                       + [huge_doc(), long_first_lines().map(lambda s: {"s": s}),
+                          long_first_lines().map(lambda s: {"s": s})]))
 
 
 # ------------------------------------------------------------ own output
